@@ -27,7 +27,8 @@ type sop struct {
 	MB   int    // index into storeBoxes
 	Ref  string // "#1" "#2" "latest" "nope" ""
 	Body int
-	Size int // add: when > 0 the body is exactly Size bytes
+	Size int  // add: when > 0 the body is exactly Size bytes
+	Back bool // add: the received date lies BEFORE every earlier delivery's (dates are metadata; order is arrival order)
 }
 
 func (o sop) String() string {
@@ -35,6 +36,9 @@ func (o sop) String() string {
 	case "add":
 		if o.Size > 0 {
 			return fmt.Sprintf("add(%s,%dB)", storeBoxes[o.MB], o.Size)
+		}
+		if o.Back {
+			return fmt.Sprintf("add(%s,b%d,backdated)", storeBoxes[o.MB], o.Body)
 		}
 		return fmt.Sprintf("add(%s,b%d)", storeBoxes[o.MB], o.Body)
 	case "scan":
@@ -146,6 +150,9 @@ func (r *storeRun) apply(o sop, check bool) (probs [][2]string, changed bool) {
 	case "add":
 		r.clock++
 		date := time.Unix(1700000000+3600*r.clock, 0)
+		if o.Back {
+			date = time.Unix(1700000000-3600*r.clock, 0)
+		}
 		body := storeBodies[o.Body]
 		if o.Size > 0 {
 			body = sizedBody(o.Size)
@@ -369,5 +376,35 @@ func sizedBody(n int) string {
 // key is the dedup key of a run: the abstract state plus a proxy for implementation-hidden
 // accounting state (how many messages left by eviction / removal so far).
 func (r *storeRun) key() string {
-	return fmt.Sprintf("%s|ev%d|rm%d", r.mo.Key(), r.evicted, r.removed)
+	return fmt.Sprintf("%s|ev%d|rm%d|%s", r.mo.Key(), r.evicted, r.removed, r.orderSig())
+}
+
+// orderSig is a proxy for implementation-hidden state: per mailbox, whether the concrete ids and
+// the dates of neighbouring messages ascend or descend in listing order.  (After a restart the
+// file store's id counter starts again, so arrival order and id order can differ; a backdated
+// delivery makes arrival order and date order differ.  Code that silently relies on one of these
+// orders behaves differently in such states, so they must not be merged with the ordinary ones.)
+func (r *storeRun) orderSig() string {
+	var b strings.Builder
+	for _, mb := range storeBoxes {
+		l := r.mo.Boxes[mb]
+		for i := 0; i+1 < len(l); i++ {
+			x, y := l[i].ID, l[i+1].ID
+			less := x < y
+			if xi, err := strconv.Atoi(x); err == nil {
+				if yi, err := strconv.Atoi(y); err == nil {
+					less = xi < yi
+				}
+			}
+			if !less {
+				b.WriteByte('i')
+			}
+			if l[i].DateNS > l[i+1].DateNS {
+				b.WriteByte('d')
+			}
+			b.WriteByte('.')
+		}
+		b.WriteByte('/')
+	}
+	return b.String()
 }
